@@ -310,12 +310,43 @@ Fixpoint isort_by (before : enode -> enode -> bool) (l : list enode) : list enod
   | [] => []
   | x :: r => insert_by before x (isort_by before r)
   end.
-(* a canonical order (by rendering), NOT the formatter's: only used to compare the
-   argument lists of files() as multisets *)
-Definition before_render (a b : enode) : bool :=
-  match str_cmp (render a) (render b) with Lt => true | _ => false end.
-Definition canon_args (ks : list enode) : list enode :=
-  isort_by before_render (filter (fun k => negb (is_kw k)) ks) ++ filter is_kw ks.
+(* An injective, prefix-decodable encoding of erased trees (unary length prefixes), used only as
+   the key of a canonical order: comparing argument lists of files() as multisets.  NOT the
+   formatter's order. *)
+Definition c_txt (s : str) : str := map (fun _ => 1) s ++ 0 :: s.
+Definition kind_code (k : kind) : N :=
+  match k with
+  | KWs => 1 | KMFStr => 2 | KFStr => 3 | KId => 4 | KNum => 5 | KMStr => 6 | KComment => 7 | KStr => 8
+  | KPlusAssign => 9 | KEqual => 10 | KNEqual => 11 | KLe => 12 | KGe => 13
+  | KEol => 14 | KLParen => 15 | KRParen => 16 | KLBracket => 17 | KRBracket => 18 | KLCurl => 19 | KRCurl => 20
+  | KComma => 21 | KDot => 22 | KPlus => 23 | KDash => 24 | KStar => 25 | KPercent => 26 | KFSlash => 27
+  | KColon => 28 | KAssign => 29 | KLt => 30 | KGt => 31 | KQuestion => 32
+  | KTrue => 33 | KFalse => 34 | KIf => 35 | KElse => 36 | KElif => 37 | KEndif => 38 | KAnd => 39 | KOr => 40
+  | KNot => 41 | KForeach => 42 | KEndforeach => 43 | KIn => 44 | KContinue => 45 | KBreak => 46 | KEof => 47
+  end.
+Definition bcode (b : bool) : N := if b then 1 else 0.
+Definition tag_code (t : tag) : str :=
+  match t with
+  | TParen => [1] | TArray c => [2; bcode c] | TDict => [3]
+  | TFunc n => 4 :: c_txt n | TMethod n => 5 :: c_txt n | TIndex => [6]
+  | TNot => [7] | TNeg => [8] | TArith o => 9 :: c_txt o | TCmp o => 10 :: c_txt o
+  | TAnd => [11] | TOr => [12] | TTern => [13]
+  | TAssign n => 14 :: c_txt n | TPlusAssign n => 15 :: c_txt n
+  | TIf => [16] | TClause => [17] | TElse => [18]
+  | TForeach a b => 19 :: c_txt a ++ match b with Some v => 1 :: c_txt v | None => [0] end
+  | TBlock => [20] | TKw => [21]
+  end.
+Fixpoint code (n : enode) : str :=
+  match n with
+  | EEmpty => [2]
+  | EAtom k s => 3 :: kind_code k :: c_txt s
+  | EStr f m s => 4 :: bcode f :: bcode m :: c_txt s
+  | ENode t ks => 5 :: tag_code t ++ concat (map (fun k => 6 :: code k) ks) ++ [7]
+  end.
+Definition before_code (a b : enode) : bool :=
+  match str_cmp (code a) (code b) with Lt => true | _ => false end.
+(* with sort_files every argument of files() may move: compare them as a multiset *)
+Definition canon_args (ks : list enode) : list enode := isort_by before_code ks.
 
 Definition files_name : str := s2l "files".
 Definition is_files (t : tag) : bool := match t with TFunc n => str_eqb n files_name | _ => false end.
